@@ -2,7 +2,12 @@ package logmodel
 
 import (
 	"bytes"
+	"context"
 	"io"
+	"log/slog"
+	"time"
+
+	"pgregory.net/rapid"
 
 	"github.com/whoisnian/glb/logger"
 )
@@ -53,4 +58,46 @@ func MaskTime(kind int, line []byte) []byte {
 		}
 		return out
 	}
+}
+
+// Prime is a record logged through ANOTHER, fresh handler immediately before the record under test: what a handler
+// writes for a record must not depend on what any handler in the process wrote before (caches keyed too coarsely,
+// scratch memory shared between handlers). The priming record's time is the later record's time moved by DNanos and
+// expressed in another zone, so that the two fall into the same second, minute or day on purpose.
+type Prime struct {
+	Use     bool
+	Kind    int // handler kind of the priming handler
+	ZoneMin int
+	DNanos  int64
+	Attrs   []Node
+}
+
+func GenPrime(o GenOpts) *rapid.Generator[Prime] {
+	return rapid.Custom(func(t *rapid.T) Prime {
+		if rapid.IntRange(0, 2).Draw(t, "primed") != 0 {
+			return Prime{}
+		}
+		p := Prime{
+			Use:     true,
+			Kind:    rapid.IntRange(0, 2).Draw(t, "primeHandler"),
+			ZoneMin: rapid.SampledFrom([]int{0, 60, -60, 330, 345, -720, 840, 1, 480}).Draw(t, "primeZoneMinutes"),
+			DNanos:  rapid.SampledFrom([]int64{0, 0, 1, -1, 1000000, 400000000, -400000000, 1000000000, -1000000000, 60000000000, 86400000000000}).Draw(t, "primeShift"),
+		}
+		if rapid.Bool().Draw(t, "primeAttrs") {
+			p.Attrs = GenNodes(o, 2).Draw(t, "primeAttrs")
+		}
+		return p
+	})
+}
+
+// Run logs the priming record (relative to base) into a sink of its own.
+func (p Prime) Run(base time.Time, addSource bool) {
+	if !p.Use {
+		return
+	}
+	h := NewHandler(p.Kind, io.Discard, logger.NewOptions(logger.LevelDebug, false, addSource))
+	pc, _, _ := CallerPC()
+	r := slog.NewRecord(base.Add(time.Duration(p.DNanos)).In(time.FixedZone("", p.ZoneMin*60)), logger.LevelInfo, "priming record", pc)
+	r.AddAttrs(Attrs(p.Attrs)...)
+	_ = h.Handle(context.Background(), r)
 }
